@@ -39,7 +39,7 @@ def kname(k):
 def rep(k):
     if isinstance(k, tuple) and k[0] == "Opt":
         # a present optional is represented unboxed; boxed construction sites are handled by rule C02.optional-rep
-        return [k[1], "Nil"]
+        return [COMPOUND.get(k[1], k[1]), "Nil"]
     if k in COMPOUND:
         return [COMPOUND[k]]
     return [k]
@@ -134,6 +134,9 @@ def run_optable(ctx, rep_, F):
         domain = [(l, r) for l in skinds for r in skinds]
         if op in ("Eq", "Neq", "Is"):
             domain += [(c, c) for c in COMPOUND]
+            # ... and their optional forms (`a: map[str, int]? ... a == b`)
+            for c in COMPOUND:
+                domain += [(("Opt", c), ("Opt", c)), (("Opt", c), c), (c, ("Opt", c)), (("Opt", c), "Nil"), ("Nil", ("Opt", c))]
         for (l, r) in domain:
             st = T.static(op, l, r)
             cells += 1
@@ -297,6 +300,7 @@ def run(ctx, rep_):
     opassign_result_storable(F, rep_)
     value_functions_check_their_exit(F, rep_)
     fields_are_initialised(F, rep_)
+    class_callable_only_from_module(F, rep_)
     from props import _identity
     _identity.zip_lengths(F, rep_, "C02.zip-length")
     # the typing guards whose loss makes an accepted program fail with a dynamic type error (shared with C03 (c))
@@ -509,6 +513,58 @@ def fields_are_initialised(F, rep, rule="C02.field-init"):
            "MemberVariable::compile starts every field as nil (reserve_primitive, whatever the declared type) and nothing in the class parser looks at the "
            "constructor's assignments: `class A { x: int  constructor(self) { } }` is accepted and `A().x` is nil although typed int",
            res[0].span, fn=mv.path, key=rule)
+
+
+def class_callable_only_from_module(F, rep, rule="C02.callable-field"):
+    """`TypeLayout::Class(C)` is the type of an instance of C, and - where a module exports the class - also of the class itself, whose call
+    is its constructor.  `is_callable_allow_class(true)` therefore answers "callable" for an instance too.  In a dot call `x.f(..)` that
+    answer is sound only when x is a module: a field or member typed with a class holds an instance (`h.k()` with `k: A` is accepted and
+    fails in `call`).  Every `is_callable_allow_class` call in Parser::dot_chain_option that can pass `true` is dominated by the Module edge
+    of a test of the receiver's type, or computes the flag from such a test."""
+    f = None
+    for g in F.crates["compiler"].fns:
+        if g.path.endswith("::dot_chain_option") and "impl compiler::parser::Parser" in g.path:
+            f = g
+    tl = F.adt("compiler::ast::r#type::TypeLayout")
+    if f is None or tl is None:
+        raise AnchorMissing("Parser::dot_chain_option / TypeLayout")
+    mod_i = str([v["name"] for v in tl["variants"]].index("Module"))
+    mod_edges = set()
+    mod_locals = set()
+    for bb, blk in enumerate(f.blocks):
+        t = blk["t"]
+        if t["k"] != "switch" or mod_i not in dict((str(v), b) for v, b in t["targets"]):
+            continue
+        dl = op_local(t["discr"])
+        for s_ in blk["s"]:
+            if "d" in s_ and s_["d"]["l"] == dl and "discr" in s_["rv"] and "TypeLayout" in f.locals[s_["rv"]["discr"]["l"]]:
+                tgt = dict((str(v), b) for v, b in t["targets"])[mod_i]
+                mod_edges.add((bb, tgt))
+                # `matches!(ty, Module(_))`: the bool assigned on that edge
+                for s2 in f.blocks[tgt]["s"]:
+                    if "d" in s2 and f.locals[s2["d"]["l"]] == "bool":
+                        mod_locals.add(s2["d"]["l"])
+    calls = f.calls_to("compiler::ast::r#type::TypeLayout::is_callable_allow_class")
+    n = 0
+    for c in calls:
+        n += 1
+        a = c.args[1] if len(c.args) > 1 else None
+        k = op_const(a) if a is not None else None
+        key = "%s|#%d" % (rule, n)
+        inst = "dot call: a class counts as callable only on a module receiver (is_callable_allow_class #%d)" % n
+        if k is not None and k.get("int") == "0":
+            rep.ob(rule, inst, "ok", "never allows a class", c.span, fn=f.path, key=key)
+        elif k is not None:
+            dom = bool(mod_edges) and rules.edge_dominated(f, c.bb, mod_edges)
+            rep.ob(rule, inst, "ok" if dom else "violated",
+                   "" if dom else "allow_class is the constant true and the call is not behind a `receiver is a module` test: `h.k()` with a field `k: A` is accepted "
+                   "and the call fails at run time", c.span, fn=f.path, key=key)
+        else:
+            l = op_local(a)
+            der = f.derived(list(mod_locals)) if mod_locals else {}
+            rep.ob(rule, inst, "ok" if l in der or l in mod_locals else "undecided", "the flag is computed from the receiver's type" if (l in der or l in mod_locals) else
+                   "the flag is a value this rule cannot trace to a Module test", c.span, fn=f.path, key=key)
+    rep.floor(rule + " is_callable_allow_class calls in dot_chain_option", n, 2)
 
 
 def opassign_result_storable(F, rep, rule="C02.opassign-result"):
